@@ -325,6 +325,9 @@ func checkC10(c *ev.Ctx) {
 			det["what"] = what
 			c.Violation(sig, det)
 		}
+		if ji%211 == 0 {
+			c.Sample(map[string]any{"scenario": s.String(), "injection": j.inj.String(), "exit": res.Exit, "killed": res.Killed, "directory_after": snapNames(snap), "last_syscalls": tail(trace, 6)})
+		}
 		inB, inOK := snap[s.Name]
 		inputIntact := inOK && bytes.Equal(inB, cin)
 		tgtB, tgtOK := []byte(nil), false
@@ -419,9 +422,6 @@ func checkC10(c *ev.Ctx) {
 		}
 		if s.Keep != inOK {
 			viol("I4-input-removal", fmt.Sprintf("exit 0, -k=%v, but input present=%v (%s)", s.Keep, inOK, j.inj))
-		}
-		if ji%977 == 0 {
-			c.Sample(map[string]any{"scenario": s.String(), "injection": j.inj.String(), "exit": res.Exit, "directory_after": snapNames(snap), "last_syscalls": tail(trace, 6)})
 		}
 	})
 	// stepper self-check on a plain successful run
